@@ -1,6 +1,7 @@
 SPECIFICATION TSpec
 CONSTANTS
-  Values = {1, 2, 3, 4, 5, 6, 8, 10, 12}
+  Values = {0, 1, 2, 3, 4, 5, 6, 8, 10, 12}
+  NegMag = {1, 2, 4}
   Gaps = {0, 1, 2, 3, 4}
   MaxLen = 14
 INVARIANTS Done TypeOK RunIsRef ReadIsCurrent PeakToTrough Recovery OnePerPeak NoneIffMonotone MaxIsLargest
